@@ -12,7 +12,7 @@ from lib.c15 import net as N
 from props import c05
 
 PID = "C15"
-EXTRA_PROPS = ("Num", "C05")
+EXTRA_PROPS = ("Num", "C05", "C05b")
 FORMATS = ["dbc", "dbc", "sym", "kcd", "json", "dbf", "arxml"]
 RULE = ("case 'read' = (format out of dbc, sym, kcd, json, dbf, arxml; an abstract network description inside the format's envelope: frames "
         "with identifier/format/length/senders/comment/cycle time, signals given by the payload bits they occupy, byte order, type, "
@@ -20,7 +20,8 @@ RULE = ("case 'read' = (format out of dbc, sym, kcd, json, dbf, arxml; an abstra
         "definitions/defaults/values on four levels for dbc and dbf; a lexical seed; level 0 = canonical rendering, 1 = the freedom the "
         "format allows; one described frame): the file is rendered by the independent writers in harness/lib/c15 (not by canmatrix), "
         "read with canmatrix.formats.loads, and the normal form of the frame that was read is compared with the described one on every "
-        "feature the format carries. case 'ecus' = the described ECUs are present. cases 'sgx'/'box' = one SG_/BO_ line of such a DBC "
+        "feature the format carries. case 'ecus' = the described ECUs are present. case 'defs' (dbc, dbf) = every described attribute definition is "
+        "present on its level with its type, parameters (range, ENUM values) and default (also the empty text). cases 'sgx'/'box' = one SG_/BO_ line of such a DBC "
         "file in its varied spacing through the real reader and through the Lean tokenizers; 'num' = one number text through Decimal() "
         "and strToDec. Non-trivial = distinct case.")
 PARTIAL = ["Lean theorems cover the lexical freedom of the DBC SG_/BO_ statements and the renderings of numbers; the other formats' readers "
@@ -83,6 +84,39 @@ def uses_native_float(data):
     return False
 
 
+LEVELS = ("frame", "signal", "ecu", "global")
+
+
+def num_norm(x):
+    return N.dec_norm(str(x))
+
+
+def want_defs(net, fmt):
+    """attribute definitions as described: level -> name -> [type, parameters, default]"""
+    out = {}
+    for lvl in LEVELS:
+        out[lvl] = {}
+        for name, kind, par, default in net["defs"][lvl]:
+            if fmt == "dbf" and default is None:
+                # a DBF definition line always carries a default: the independent writer puts 0 / the first value / the empty text
+                default = "0" if kind in ("INT", "HEX", "FLOAT") else par[0] if kind == "ENUM" else ""
+            params = [num_norm(p) for p in par] if kind in ("INT", "HEX", "FLOAT") else list(par)
+            out[lvl][name] = [kind, params, default]
+    return out
+
+
+def got_defs(db):
+    out = {}
+    for lvl, dd in (("frame", db.frame_defines), ("signal", db.signal_defines), ("ecu", db.ecu_defines), ("global", db.global_defines)):
+        out[lvl] = {}
+        for name, d in dd.items():
+            if name.startswith("Gen") or name in ("BusType", "ProtocolType", "VFrameFormat") or name.startswith("System"):
+                continue        # carrier attributes the readers and writers add themselves
+            params = [num_norm(d.min), num_norm(d.max)] if d.type in ("INT", "HEX", "FLOAT") else list(getattr(d, "values", []) or [])
+            out[lvl][name] = [d.type, params, None if d.defaultValue is None else str(d.defaultValue)]
+    return out
+
+
 def gen(rng, tier, shard, nshards):
     total = {"quick": 1600, "thorough": 16000}[tier] // nshards + 1
     for _ in range(total):
@@ -96,6 +130,8 @@ def gen(rng, tier, shard, nshards):
             yield {"op": "read", "c": dict(base, fid=f["id"], ext=f["ext"], desc=N.expected_frame(f))}
         if fmt != "sym":          # SYM knows no ECUs
             yield {"op": "ecus", "c": dict(base, ecus=list(net["ecus"]))}
+        if any(net.get("defs", {}).get(lvl) for lvl in LEVELS):
+            yield {"op": "defs", "c": dict(base, want=want_defs(net, fmt))}
         if fmt == "dbc":
             r = run(net, fmt, lexseed, level)
             if r["text"] is not None:
@@ -132,6 +168,8 @@ def observe(case):
     db = r["db"]
     if op == "ecus":
         return {"exc": None, "ecus": sorted(e.name for e in db.ecus)}
+    if op == "defs":
+        return {"exc": None, "got": got_defs(db)}
     fr = next((x for x in db.frames if x.arbitration_id.id == c["fid"] and bool(x.arbitration_id.extended) == c["ext"]), None)
     return {"exc": None, "errors": r["errors"], "got": N.got_frame(fr) if fr is not None else None,
             "native": c["fmt"] == "json" and uses_native_float(r["text"])}
@@ -148,8 +186,12 @@ def project(impl):
 def features(case, impl):
     c = case["c"]
     yield "op=" + case["op"]
-    if case["op"] in ("read", "ecus"):
+    if case["op"] in ("read", "ecus", "defs"):
         yield "fmt=%s/level%d" % (c["fmt"], c["level"])
+    if case["op"] == "defs":
+        for lvl in LEVELS:
+            for name, (kind, _, default) in c["want"][lvl].items():
+                yield "define:%s%s" % (kind, "" if default is None else ("+empty-default" if default == "" else "+default"))
     if case["op"] == "read":
         d = c["desc"]
         for s in d["signals"]:
@@ -174,7 +216,7 @@ def classify(case, impl, spec):
 
 def recipe(case):
     c = case["c"]
-    if case["op"] in ("read", "ecus"):
+    if case["op"] in ("read", "ecus", "defs"):
         return ("python: from lib.c15 import %s as R; text = R.render(case['c']['net'], R.Lex(random.Random(case['c']['lexseed']), case['c']['level'])); "
                 "canmatrix.formats.loads(text, '%s') and compare lib.c15.net.got_frame(frame) with case['c']['desc']" % (c["fmt"], c["fmt"]))
     return "see props/c15.py observe()"
